@@ -1188,7 +1188,6 @@ class CircuitTemplate(AbstractBaseTemplate):
 
         else:
 
-            outputs = self._relabel_var(outputs, self._vectorization_labels)
             *out_nodes, out_op, out_var = outputs.split('/')
             target_nodes = self.get_nodes(out_nodes, var_identifier=(out_op, out_var))
 
